@@ -356,11 +356,14 @@ def session_threads_case(seed):
             return orig(request, credential)
         rig.engine.process_request = recording
         nreq = rnd.choice([2, 3, 4])
+        same_serial = (770000 + seed % 1000) if seed % 2 == 0 else None
         conns = {}
         for u in users:
             frames = [G.encode_request(G.mkreq(12, [{"op": "query", "bid": "%s-%d" % (u, k), "crypto": None,
                                                       "functions": [1]}])) for k in range(nreq)]
-            conns[u] = S.FakeConn([b"".join(frames)], S.make_cert((u,), "client"))
+            # every other workload: the sessions' certificates carry the SAME serial number (serial numbers are
+            # unique per issuer only: two authorities, or test authorities that count from 1)
+            conns[u] = S.FakeConn([b"".join(frames)], S.make_cert((u,), "client", serial=same_serial))
         sys.setswitchinterval(1e-6)
         barrier = threading.Barrier(len(users))
 
